@@ -28,7 +28,9 @@ Step ==
             LET T == cur.t_us
                 tol == 20 + T \div 1000
                 b1 == cur.invalid = "" /\ r.us + tol < T
-                b2 == cur.invalid = "" /\ r.us > T + 60000 + T \div 5
+                \* bounded slack: 60 ms of scheduling noise plus a tenth of the request (the drift of sliced
+                \* waits that count nominal slices is about three tenths)
+                b2 == cur.invalid = "" /\ r.us > T + 60000 + T \div 10
                 b3 == cur.invalid # "" /\ ~((r.code = EINVAL) /\ r.us < 50000
                                              /\ (IF cur.call = "cond" THEN r.ret = EINVAL ELSE r.ret = -1))
             IN /\ (b1 => Viol("early", <<cur.call, T, r.us>>))
